@@ -36,9 +36,9 @@ def coverage(vals):
 def run(tier, rep):
     wd = vlib.workdir("C05")
     quick = tier == "quick"
-    st = vlib.tlc_mc("C05", "MC_Wire", wc.MC_CFG, {"Large": 1200, "L": 1, "Part": '"c05"'})
+    st = wc.mc("C05", "MC_Wire", {"Large": 1200, "L": 1, "Part": '"c05"'})
     rep.add_mc("MC_Wire/values", st)
-    if st["depth"] != 2:
+    if st["depth"] != 2 or st["distinct"] < 6000:
         raise vlib.ToolError("vacuity: MC_Wire did not reach the values")
     for large in ([1200] if quick else [1200, 16384]):
         vals = os.path.join(wd, "vals_%d.ndjson" % large)
